@@ -1123,6 +1123,11 @@ fn gen_index_over_duplicates(rng: &mut Rng, out: &mut Vec<Case>) {
     if rng.chance(1, 2) {
         ops.push(format!("reopen ; db ins {} 2 14 ; db ins {} 7 15 ; db sel {}", t, t, t));
     }
+    // PRIMARY KEY over a column that holds NULL: refused until the NULLs are gone
+    if rng.chance(1, 2) {
+        ops.push(format!("db ct p(k:big,v:int) ; db ins p null 1 ; db ins p 2 2 ; db ak p ^k ; db ins p null 3 ; db sel p"));
+        ops.push("db del p where v eq 1 ; db del p where v eq 3 ; db ak p ^k ; db ins p null 4 ; db ins p 2 5 ; db ins p 3 6 ; db sel p".into());
+    }
     let tags: Vec<String> = vec!["c15".into(), "index_over_duplicates".into(), "nt".into(), "clean".into()];
     out.push(Case { line: format!("ddl | {}", ops.join(" ; ")), tags });
 }
